@@ -140,6 +140,22 @@ partial def decEv (j : Json) : Except String Ev := do
       match divisorByName dn with
       | some d => pure (.leaf haSig (haLeaf d))
       | none => throw s!"unknown divisor {dn}"
+  | "qd" | "lr" => do
+      let qn ← j.getObjValAs? String "quota"
+      let q ← match qn with
+        | "hare" => pure Gen.Quota.hare
+        | "droop" => pure Gen.Quota.droop
+        | "hagenbach_bischoff" => pure Gen.Quota.hagenbach_bischoff
+        | "imperiali" => pure Gen.Quota.imperiali
+        | _ => throw s!"unknown quota {qn}"
+      let ae ← j.getObjValAs? Bool "accept_equal"
+      let pol ← j.getObjValAs? String "on_overaward"
+      let onOver ← match pol with
+        | "error" => pure QD.OnOver.error
+        | "ignore" => pure QD.OnOver.ignore
+        | "subtract" => pure QD.OnOver.subtract
+        | _ => throw s!"bad policy {pol}"
+      pure (.leaf haSig (quotaLeaf (k == "lr") ⟨q, ae, onOver⟩ (qn == "hare")))
   | "abs_thr" => do let (t, eq) ← getThr j; pure (.leaf seatlessSig (absThresholdLeaf t eq))
   | "rel_thr" => do let (t, eq) ← getThr j; pure (.leaf seatlessSig (relThresholdLeaf t eq))
   | "prev_gain_thr" => do let (t, eq) ← getThr j; pure (.leaf prevGainSig (prevGainThresholdLeaf t eq))
